@@ -54,6 +54,9 @@ class C08(HistoryProperty):
     def gen_case(self, rng, tier):
         cfg = gen.swarm_cfg(rng, off=("shape_change",), on=("presets", "default_presets", "dataset", "derive", "withopts", "map", "dsclass"))
         cfg["partial_section_preset"] = rng.random() < 0.8
+        cfg["mutating_bodies"] = rng.random() < 0.4  # bodies that work in place on a section / list taken from the options
+        if cfg["mutating_bodies"]:
+            cfg["whole_section"] = cfg["lists"] = True
         spec = gen.gen_spec(rng, cfg)
         gadget_roots = []
         if rng.random() < 0.25:
